@@ -1,10 +1,11 @@
 package http
 
 var verifHarnesses = map[string]func(){
-	"VerifC18PosMapRoundTrip": VerifC18PosMapRoundTrip,
-	"VerifC18PosMapHostile":   VerifC18PosMapHostile,
-	"VerifC06StreamDB":        VerifC06StreamDB,
-	"VerifC20Invalid":         VerifC20Invalid,
-	"VerifC19Proxy":           VerifC19Proxy,
-	"VerifC13ForwardedTx":     VerifC13ForwardedTx,
+	"VerifC18PosMapRoundTrip":      VerifC18PosMapRoundTrip,
+	"VerifC18PosMapHostile":        VerifC18PosMapHostile,
+	"VerifC06StreamDB":             VerifC06StreamDB,
+	"VerifC20Invalid":              VerifC20Invalid,
+	"VerifC19Proxy":                VerifC19Proxy,
+	"VerifC13ForwardedTx":          VerifC13ForwardedTx,
+	"VerifC07ImportAcrossDemotion": VerifC07ImportAcrossDemotion,
 }
